@@ -347,8 +347,10 @@ impl<'a> IExec<'a> {
                                     reasons.push("token-refuses-this-receiver");
                                 }
                                 if let Some(to) = to {
-                                    if self.bal(t, to).checked_add(a).is_none() || self.toks[t].supply.checked_add(a).is_none() {
-                                        either = true;
+                                    if self.bal(t, to).checked_add(a).is_none() {
+                                        // a credit that cannot be represented cannot be "exactly the announced amount"
+                                        ctx.count("probe.inbound_credit_would_overflow");
+                                        reasons.push("credit-would-overflow");
                                     }
                                     if !data.is_empty() {
                                         if to != H_APP || data[0] == 0xff {
@@ -409,7 +411,7 @@ impl<'a> IExec<'a> {
             let tags: &[&'static str] = match reasons[0] {
                 "token-id-already-registered" | "unrepresentable-metadata" | "undecodable-minter" => &["C04", "C11"],
                 "undecodable-or-unsupported-payload" | "not-a-receive-from-hub-wrapper" => &["C04", "C10"],
-                "insufficient-custody" | "unknown-token" | "undecodable-recipient" | "token-refuses-this-receiver" => &["C04", "C05"],
+                "insufficient-custody" | "unknown-token" | "undecodable-recipient" | "token-refuses-this-receiver" | "credit-would-overflow" => &["C04", "C05"],
                 _ => &["C04"],
             };
             match ctx.expect(res.out.is_err(), tags, &cls, || format!("delivery that must be refused ({}) was executed", label)) {
